@@ -1057,6 +1057,24 @@ func (r *runner) deviations(b *blockRec) {
 			r.problem("deviation-accepted", map[string]interface{}{"parent": b.parent, "block": b.id, "order": b.order, "deviation": d.name, "ctx": d.ctx, "entry": "VerifyHeader"})
 		}
 		list = append(list, map[string]interface{}{"f": d.name, "ctx": d.ctx, "res": res})
+		// as a node meets a block from a peer (Core.WriteBlock): the block is stored as a CANDIDATE and looked up through the
+		// header-or-candidate getter (which fills the header caches) BEFORE its append verifies it - a stored candidate is not an
+		// accepted header, every rule must still be checked
+		if verr != nil {
+			var verr2 error
+			if p := protect(func() {
+				c := n.Cores[d.ctx]
+				c.Slice().WriteBlock(rt)
+				c.GetHeaderOrCandidateByHash(rt.Hash())
+				verr2 = c.Slice().HeaderChain().VerifyHeader(rt)
+			}); p == "" {
+				r.stats["deviations_as_candidate"]++
+				if verr2 == nil {
+					r.problem("deviation-accepted", map[string]interface{}{"parent": b.parent, "block": b.id, "order": b.order, "deviation": d.name, "ctx": d.ctx,
+						"entry": "VerifyHeader after the block was stored as a candidate and looked up"})
+				}
+			}
+		}
 		// full path: the zone node is handed the re-sealed block (zone order, so that it appends it itself)
 		if doAppend && d.ctx == common.ZONE_CTX && d.name != "time-future" {
 			w2 := types.CopyWorkObject(w)
